@@ -523,19 +523,30 @@ def gen_catalog(src):
 
 
 def run(repo, gen_dir):
+    """regenerate every module; a module whose extraction fails keeps its previous text and is reported in info['errors']"""
     src = Src(repo)
-    feature_fields(src)
     os.makedirs(gen_dir, exist_ok=True)
-    info = {}
+    info = {"errors": {}}
     outputs = {}
-    outputs["Resolve.lean"], info["resolve"] = gen_resolve(src)
-    outputs["Catalog.lean"], info["catalog"] = gen_catalog(src)
+    gens = [("Resolve.lean", gen_resolve), ("Catalog.lean", gen_catalog)]
     try:
         import translate_more
-        for name, fn in translate_more.GENERATORS:
-            outputs[name], info[name.replace(".lean", "").lower()] = fn(src)
+        gens += translate_more.GENERATORS
     except ImportError:
         pass
+    try:
+        feature_fields(src)
+    except TranslateError as e:
+        for name, _ in gens:
+            info["errors"][name] = str(e)
+        gens = []
+    for name, fn in gens:
+        try:
+            outputs[name], info[name.replace(".lean", "").lower()] = fn(src)
+        except TranslateError as e:
+            info["errors"][name] = str(e)
+        except (IndexError, KeyError, AttributeError, ValueError) as e:   # malformed input the parser did not anticipate
+            info["errors"][name] = f"translator could not parse the source for {name}: {type(e).__name__}: {e}"
     changed = []
     for name, text in outputs.items():
         p = os.path.join(gen_dir, name)
